@@ -11,7 +11,8 @@ RULE = ("histories with up to 5 live handles starting from a random BQM (float64
         "arithmetic operators, relabel_variables / relabel_variables_as_integers / change_vartype / spin_to_binary / fix_variables with "
         "inplace=False, SampleSet copy/relabel/change_vartype/slice (sorted_by None or energy)/truncate/lowest/filter/aggregate/"
         "concatenate/keep/drop/append_variables/append_data_vectors/from_samples), cqm.add_constraint_from_model(copy=True/False) with a live "
-        "model (moved-from model compared with an empty one and re-used), creation of spin/binary/objective views, and random in-place edits "
+        "model (moved-from model compared with an empty one and re-used), cqm.add_discrete / add_discrete_from_comparison / add_discrete_from_model "
+        "of a live one-hot model with every combination of check_overlaps and copy given or defaulted, creation of spin/binary/objective views, and random in-place edits "
         "through any handle incl. views; after every step every live handle is snapshotted bit for bit (coefficients in iteration order, "
         "variables, vartypes, bounds, record.tobytes(), labels, info), snapshots interned; expected results come from the same call on a "
         "detached clone; the store model in Coq decides what every handle must show; each snapshot also calls energies() on the object "
